@@ -198,9 +198,10 @@ macro_rules! impl_bop {
                 let a = if ulps_eq!(*self.u(), 1.0) && ulps_eq!(*rhs.u(), 1.0) {
                     (self.base_rate + rhs.base_rate) / 2.0
                 } else {
-                    (self.base_rate * rhs.u() + rhs.base_rate * self.u()
-                        - (self.base_rate + rhs.base_rate) * uu)
-                        / (kappa - uu)
+                    let ca = 1.0 - self.u();
+                    let cb = 1.0 - rhs.u();
+                    (self.base_rate * rhs.u() * ca + rhs.base_rate * self.u() * cb)
+                        / (rhs.u() * ca + self.u() * cb)
                 };
                 Self::try_new(b, d, u, a)
             }
@@ -245,13 +246,13 @@ macro_rules! impl_bop {
                     u = 1.0;
                     a = (self.base_rate + rhs.base_rate) / 2.0;
                 } else {
-                    let denom = self.u() + rhs.u() - 2.0 * self.u() * rhs.u();
                     let ca = 1.0 - self.u();
                     let cb = 1.0 - rhs.u();
+                    let denom = ca * rhs.u() + cb * self.u();
                     b = (self.b() * ca * rhs.u() + rhs.b() * cb * self.u()) / denom;
                     d = (self.d() * ca * rhs.u() + rhs.d() * cb * self.u()) / denom;
-                    u = (2.0 - self.u() - rhs.u()) * self.u() * rhs.u() / denom;
-                    a = (self.base_rate * ca + rhs.base_rate * cb) / (2.0 - self.u() - rhs.u());
+                    u = (ca + cb) * self.u() * rhs.u() / denom;
+                    a = (self.base_rate * ca + rhs.base_rate * cb) / (ca + cb);
                 }
                 Self::try_new(b, d, u, a)
             }
